@@ -1,4 +1,5 @@
 import AikenVerif.Props.C10
+import AikenVerif.Lemmas.ExpMod
 /-!
 # C04 — builtins compute their specified function on their whole domain: property theorems
 
@@ -440,5 +441,44 @@ theorem selectors_spec (sem : Sem) (a b : Value) :
     callBuiltin sem .chooseUnit [.con .unit, a] = .ok a ∧
     callBuiltin sem .trace [.con (.string []), a] = .ok a := by
   refine ⟨rfl, rfl, rfl, rfl⟩
+
+-- ------------------------------------------------------------------ expModInteger
+/-- `expModInteger b e m` with `e ≥ 0` IS `b ^ e mod m` (mathematical, non-negative remainder) for
+every base, exponent and modulus `> 1` inside the implementation's 8192-bit operand limits -/
+theorem expMod_is_modular_exponentiation (sem : Sem) (b e m : Int) (hm : 1 < m) (hmb : m ≤ expModBound - 1)
+    (he : 0 ≤ e) (heb : e ≤ expModBound - 1) (hb1 : -expModBound ≤ b) (hb2 : b ≤ expModBound - 1) :
+    callBuiltin sem .expModInteger [I b, I e, I m] = .ok (I (b ^ e.toNat % m)) := by
+  simp only [callBuiltin, callBuiltinCore, getArgB, List.getElem?_cons_zero, List.getElem?_cons_succ,
+    Value.unwrapInteger, bind, Res.bind, pure, expMod_nonneg b e m hm hmb he heb hb1 hb2]
+
+/-- with a negative exponent it fails iff the base has no inverse modulo `m`, and otherwise returns the
+`-e`-th power of a number `inv` with `inv · b ≡ 1 (mod m)` -/
+theorem expMod_negative_exponent (sem : Sem) (b e m : Int) (hm : 1 < m) (hmb : m ≤ expModBound - 1) (he : e < 0)
+    (heb : -expModBound ≤ e) (hb1 : -expModBound ≤ b) (hb2 : b ≤ expModBound - 1) (hb0 : b ≠ 0) :
+    (modularInverse b m = none ∧ callBuiltin sem .expModInteger [I b, I e, I m] = .err) ∨
+    (∃ inv, m ∣ inv * b - 1 ∧
+      callBuiltin sem .expModInteger [I b, I e, I m] = .ok (I ((inv.toNat : Int) ^ (-e).toNat % m))) := by
+  have h := expMod_neg b e m hm hmb he heb hb1 hb2 hb0
+  cases hi : modularInverse b m with
+  | none =>
+    left
+    rw [hi] at h
+    refine ⟨rfl, ?_⟩
+    simp only [callBuiltin, callBuiltinCore, getArgB, List.getElem?_cons_zero, List.getElem?_cons_succ,
+      Value.unwrapInteger, bind, Res.bind, pure, h]
+  | some inv =>
+    right
+    rw [hi] at h
+    refine ⟨inv, modularInverse_sound b m inv hi, ?_⟩
+    simp only [callBuiltin, callBuiltinCore, getArgB, List.getElem?_cons_zero, List.getElem?_cons_succ,
+      Value.unwrapInteger, bind, Res.bind, pure, h]
+
+/-- non-vacuity: the hypotheses hold for `3 ^ 5 mod 7` (so the theorem gives `243 % 7 = 5`), and the
+inverse of 3 modulo 7 found by the loop is 5 while 2 has none modulo 4 -/
+example : callBuiltin .E .expModInteger [I 3, I 5, I 7] = .ok (I (3 ^ (5 : Int).toNat % 7)) :=
+  expMod_is_modular_exponentiation .E 3 5 7 (by decide) (by unfold expModBound; decide +kernel) (by decide)
+    (by unfold expModBound; decide +kernel) (by unfold expModBound; decide +kernel) (by unfold expModBound; decide +kernel)
+example : modularInverse 3 7 = some 5 ∧ modularInverse 2 4 = none := by
+  constructor <;> rfl
 
 end AikenVerif.C04
